@@ -26,3 +26,17 @@ package thriftproto
 //@   property C15 C04
 //@   ensures[status-field-decoded] @C04 result == nil ==> as(m, type(*socket.message)).status != nil && as(m, type(*socket.message)).status.#fromWire
 //@   requires msgOwnStatus(as(m, type(*socket.message)))
+
+// C04: the status written into a frame is the status of the message being packed
+// (the header map lives in the connection-level protocol object: it is cleared
+// and the status header is set for every message)
+//@ func (*tBinaryProto).binaryPack
+//@   property C04
+//@   flags libframe frame-unchecked
+//@   modifies allof(type(socket.message)), lockset
+//@   ensures[status-field-encoded] result == nil ==> as(m, type(*socket.message)).status != nil && t.tProtocol.#statusHdr == as(m, type(*socket.message)).status
+//@ func (*tStructProto).structPack
+//@   property C04
+//@   flags libframe frame-unchecked
+//@   modifies allof(type(socket.message)), lockset
+//@   ensures[status-field-encoded] result == nil ==> as(m, type(*socket.message)).status != nil && t.tProtocol.#statusHdr == as(m, type(*socket.message)).status
